@@ -30,6 +30,12 @@ CHECKS = {
  "C19": ("runtime model monitor: operation sequences on dep.Type / version.AttrSet replayed against a {flags, key->value} model, order laws over all triples, clone-independence re-verified after every operation, text round trips through the public schema API; race-detector build of a concurrent clone workload",
          "Exploration: every live value is re-checked against its model after every operation of every generated sequence; Compare/Equal matrices against model equality and the order laws; six text forms through schema.ParseResolve, Graph.String and schema.New; a -race child uses original and clone from two goroutines.",
          "Values a text form cannot spell (listed in evidence: e.g. '|' on a graph line) are replaced before writing; the race detector reports only executed races.", "§6 C19"),
+ "C12": ("runtime model + metamorphic monitor: MatchRequirement on fresh copies of 12 permutations of each generated list, directly and through LocalClient, against single-version membership and the stated order",
+         "Exploration: membership (== versions matching on their own), order (model of the stated ecosystem order incl. npm latest/unparsable rules) and permutation invariance observed on every generated (requirement, list).",
+         "Membership/order oracles reuse the library's single-version matching and comparison, themselves compared with the ecosystems' tools by C03/C02.", "§6 C12"),
+ "C14": ("runtime history monitor: AddVersion/read histories on a live LocalClient replayed against a map-based reference model, every read compared at read time",
+         "Exploration over generated histories (new keys, re-added keys with changed tags/flags/requirements, deleted-flagged adds, moving latest tag, reads of present/absent/merely-required packages).",
+         "Model order = library comparison + stated npm rules; at most one latest holder per package.", "§6 C14"),
 }
 NOT_YET = {}
 
